@@ -109,10 +109,24 @@ pub fn preseal_melmint<C: ContentAddrStore>(state: UnsealedState<C>) -> Unsealed
     process_pegging(state)
 }
 
+/// The pool a request names in its `data`. `PoolKey::from_bytes` returns whatever pair of denominations the long form
+/// spells, in the order it spells them, while pools are stored under `PoolKey::to_bytes`, which is the same for `(X, MEL)`
+/// and `(MEL, X)`: a request spelling an existing pool backwards was settled against that pool's reserves with the two
+/// sides swapped. A request therefore names the canonical key of the pair it spells, and a pair that cannot be a pool -
+/// twice the same denomination, or the `NewCustom` placeholder, which no coin carries - names nothing.
+fn requested_pool_key(data: &[u8]) -> Option<PoolKey> {
+    let spelled = PoolKey::from_bytes(data)?;
+    let (left, right) = (spelled.left(), spelled.right());
+    if left == right || left == Denom::NewCustom || right == Denom::NewCustom {
+        return None;
+    }
+    Some(PoolKey::new(left, right))
+}
+
 fn extract_pool_keys_sorted(transactions: &mut [Transaction]) -> Vec<PoolKey> {
     transactions
         .iter()
-        .filter_map(|tx| PoolKey::from_bytes(&tx.data))
+        .filter_map(|tx| requested_pool_key(&tx.data))
         .collect::<Vec<_>>()
         .pipe(|mut v| {
             v.sort();
@@ -124,7 +138,7 @@ fn extract_pool_keys_sorted(transactions: &mut [Transaction]) -> Vec<PoolKey> {
 fn transactions_for_pool(transactions: &[Transaction], pool_key: &PoolKey) -> Vec<Transaction> {
     transactions
         .iter()
-        .filter(|tx| Some(pool_key) == PoolKey::from_bytes(&tx.data).as_ref())
+        .filter(|tx| Some(pool_key) == requested_pool_key(&tx.data).as_ref())
         .cloned()
         .collect()
 }
@@ -235,7 +249,7 @@ fn get_swap_transactions<C: ContentAddrStore>(state: &UnsealedState<C>) -> Vec<T
         .filter_map(|tx| {
             (!tx.outputs.is_empty()).then_some(())?; // ensure not empty
             state.coins.get_coin(tx.output_coinid(0))?; // ensure that first output is unspent
-            let pool_key = PoolKey::from_bytes(&tx.data)?; // ensure that data contains a pool key
+            let pool_key = requested_pool_key(&tx.data)?; // ensure that data contains a pool key
             state.pools.get(&pool_key)?; // ensure that pool key points to a valid pool
             (tx.outputs[0].denom == pool_key.left() || tx.outputs[0].denom == pool_key.right())
                 .then_some(())?; // ensure that the first output is either left or right
@@ -341,7 +355,7 @@ fn get_deposit_transactions<C: ContentAddrStore>(state: &UnsealedState<C>) -> Ve
                 && state.coins.get_coin(tx.output_coinid(0)).is_some()
                 && state.coins.get_coin(tx.output_coinid(1)).is_some())
             .then_some(())?;
-            let pool_key = PoolKey::from_bytes(&tx.data)?;
+            let pool_key = requested_pool_key(&tx.data)?;
             (tx.outputs[0].denom == pool_key.left() && tx.outputs[1].denom == pool_key.right())
                 .then_some(tx)
         })
@@ -422,7 +436,7 @@ fn get_withdrawal_transactions<C: ContentAddrStore>(state: &UnsealedState<C>) ->
                 && tx.outputs.len() == 1
                 && state.coins.get_coin(tx.output_coinid(0)).is_some())
             .then_some(())?;
-            let pool_key = PoolKey::from_bytes(&tx.data)?;
+            let pool_key = requested_pool_key(&tx.data)?;
             state.pools.get(&pool_key)?;
             (tx.outputs[0].denom == pool_key.liq_token_denom()).then_some(tx)
         })
